@@ -120,6 +120,7 @@ var SCAddresses = map[string]string{
 	"vesting":  vestingsc.ADDRESS,
 	"zcn":      zcnsc.ADDRESS,
 	"multisig": multisigsc.Address,
+	"probe":    ProbeAddress,
 }
 
 func must(err error) {
@@ -217,6 +218,7 @@ func New(opt Options) *World {
 	client.SetupEntity(store)
 	transaction.SetupEntity(store)
 	setupsc.SetupSmartContracts()
+	registerProbe()
 
 	c := chain.NewChainFromConfig()
 	w.Chain = c
@@ -267,6 +269,8 @@ func New(opt Options) *World {
 	}
 	ids = append(ids, state.IDTokens{ID: w.Owner.ID, Tokens: opt.ClientFunds})
 	clientsTotal += opt.ClientFunds
+	ids = append(ids, state.IDTokens{ID: ProbeAddress, Tokens: 1e15}) // wallet of the probe contract
+	clientsTotal += 1e15
 	for _, n := range append(append([]*Wallet{}, w.Miners...), w.Sharders...) {
 		ids = append(ids, state.IDTokens{ID: n.ID, Tokens: opt.ClientFunds})
 		clientsTotal += opt.ClientFunds
